@@ -62,7 +62,72 @@ TAILS = ['doc = """first\nsecond"""', "s = '''a\nb\nc'''", 's = "a\\\nb"', 'x = 
          'z = 1 + \\\n    2', '"""module\ndoc"""', 'def g():\n    return """a\n    b"""', 'class K:\n    x = (1,\n         2)', "t = rb'''x\ny'''", 'if a:\n    b = {1:\n         2}']
 
 
+BODIES_OK = ['pass', 'return 1', 'x = 1\ny = 2', 'self.a = a', 'for i in j:\n    k(i)', 'if a:\n    b\nelse:\n    c', 'yield x', 'with p as q:\n    r', 'try:\n    s\nfinally:\n    t',
+             '"""doc"""\nreturn None', 'x = [\n    1,\n    2,\n]', 's = """a\nb"""', 'z = f"{a}"']
+BODIES_OPEN = ['self.x = (\nself.version_info = version_info', 'return [\n1,', 'foo(a,\nb', 'x = {\n', 's = """never closed', "t = 'no end", 'if a:', 'y = 1 +', 'f"{a', 'call(b)[', 'lambda:',
+               'x = (1,\n     2', 'for i in (\n', 'class', 'def', 'z = \\', '@', 'print(a, b,']
+BLANKS = ['', '\n', '\n\n', '# c\n', '\n    # indented comment\n', '    \n']
+
+
+def gen_history_struct(r):
+    """a class / module of small definitions, some of whose bodies end in an unfinished statement (open bracket, unterminated string, dangling
+    operator), so that the line break after them lives in the prefix of what follows; edits happen BELOW such a block, are undone, blocks are
+    appended, removed and swapped - under LF, CRLF and bare CR line ends"""
+    from parso.utils import split_lines
+    in_class = r.random() < 0.7
+    ind = '    ' if in_class else ''
+
+    def block(i):
+        body = r.choice(BODIES_OPEN) if r.random() < 0.4 else r.choice(BODIES_OK)
+        head = r.choice(['def m%d(self):' % i, 'def m%d(self, a=1):' % i, 'async def m%d(self):' % i, '@dec\n' + ind + 'def m%d(self):' % i, 'class K%d:' % i]) if r.random() < 0.85 \
+            else r.choice(['if c%d:' % i, 'for v%d in w:' % i, 'while c%d:' % i])
+        lines = [ind + head] + [ind + '    ' + l for l in body.split('\n')]
+        return '\n'.join(lines) + '\n' + r.choice(BLANKS)
+    blocks = [block(i) for i in range(r.randint(2, 5))]
+
+    def render(bl):
+        t = ('class C:\n' if in_class else '') + ''.join(bl)
+        return t
+    hist = [render(blocks)]
+    saved = [list(blocks)]
+    for step in range(r.randint(3, 6)):
+        k = r.random()
+        bl = list(blocks)
+        i = r.randrange(len(bl))
+        if k < 0.3:
+            # change something inside a later block
+            j = r.randrange(i, len(bl))
+            ls = bl[j].split('\n')
+            q = r.randrange(len(ls))
+            ls[q] = ls[q] + r.choice([' # edited', ' + 1', '', 'x', ')', ' (']) if ls[q].strip() else ind + '    pass'
+            bl[j] = '\n'.join(ls)
+        elif k < 0.45:
+            bl = saved[r.randrange(len(saved))]          # undo
+        elif k < 0.65:
+            bl.append(block(10 + step))
+        elif k < 0.75:
+            bl.insert(i, block(20 + step))
+        elif k < 0.85 and len(bl) > 1:
+            del bl[i]
+        elif k < 0.93 and len(bl) > 1:
+            j = r.randrange(len(bl))
+            bl[i], bl[j] = bl[j], bl[i]
+        else:
+            bl[i] = block(30 + step)
+        blocks = list(bl)
+        saved.append(list(bl))
+        hist.append(render(blocks))
+    nl = r.choice(['\n', '\n', '\r\n', '\r', '\r'])
+    if nl != '\n':
+        hist = [h.replace('\n', nl) for h in hist]
+    if r.random() < 0.2:
+        hist = [h.rstrip('\r\n') for h in hist]
+    return hist
+
+
 def gen_history(r):
+    if r.random() < 0.3:
+        return gen_history_struct(r)
     kind, code = gens.text_case(r.random(), 'c04-seed', 0, ['valid', 'corpus', 'oneliner', 'semantic'])
     from parso.utils import split_lines
     code = code[:3000]
